@@ -450,6 +450,40 @@ def run(ctx):
         m = fcu_meta[i]
         ctx.mismatch(f"CUSUM().evaluate({m['cut']}) = {m['impl_value']!r} is not what the kernel's documented operation order (sequential prefix sums, weights sqrt(na / (n nb)) and "
                      f"sqrt(nb / (n na)) with integer products, |bw before - aw after|) gives on binary64", m, {"what": "float-operation-order", "kernel": "cusum"})
+    # ---- batches in which cuts RECUR, in no particular order (3-point cuts listed by split point share their outer interval; a caller may ask for a cut twice): every row of
+    # ---- the result is the defining difference of ITS cut
+    from skchange.anomaly_scores import LocalAnomalyScore as _LASb, Saving as _SVb
+    from skchange.change_scores import ChangeScore as _CSb
+    from skchange.costs import GaussianVarCost as _GVb, L2Cost as _L2b
+    rng_b = np.random.default_rng(ctx.seed + 608)
+    for it in range(ctx.n(6, 40)):
+        n, p = int(rng_b.integers(12, 30)), int(rng_b.integers(1, 4))
+        Xb = rng_b.normal(size=(n, p)) * 2.0 + 1.0
+        for name_b, mk_b, k_b, ms_b, ref_b in [("ChangeScore(L2Cost)", lambda: _CSb(_L2b()), 3, 1, lambda c: direct.change_direct("l2", Xb, *c)),
+                                               ("ChangeScore(GaussianVarCost)", lambda: _CSb(_GVb()), 3, 2, lambda c: direct.change_direct("gvar", Xb, *c)),
+                                               ("Saving(L2Cost(0.5))", lambda: _SVb(_L2b(0.5)), 2, 1, lambda c: direct.saving_direct("l2", 0.5, Xb, *c)),
+                                               ("LocalAnomalyScore(L2Cost)", lambda: _LASb(_L2b()), 4, 1, lambda c: direct.local_direct("l2", Xb, *c))]:
+            cuts_b = []
+            while len(cuts_b) < 5:
+                pts = sorted(int(v) for v in rng_b.choice(np.arange(0, n + 1), size=k_b, replace=False))
+                if all(b_ - a_ >= ms_b for a_, b_ in zip(pts, pts[1:])) and (k_b != 4 or (pts[1] - pts[0]) + (pts[3] - pts[2]) >= ms_b):
+                    cuts_b.append(pts)
+            order = [3, 0, 4, 0, 2, 3, 1, 3]
+            batch = np.asarray([cuts_b[i] for i in order])
+            ctx.case({"recurring-batch": name_b, "it": it, "n": n, "p": p}, nontrivial=True)
+            ctx.count("recurring_batch", name_b)
+            try:
+                got = np.asarray(mk_b().fit(Xb).evaluate(batch), dtype=float)
+            except Exception as ex:
+                ctx.violation(f"{name_b}: a batch with recurring cuts raised {type(ex).__name__}: {str(ex)[:100]}", {"X": Xb.tolist(), "cuts": batch.tolist()},
+                              {"what": "recurring-batch-exception", "scorer": name_b.split("(")[0]})
+                continue
+            for row, cut in zip(got, batch.tolist()):
+                want = np.asarray(ref_b(cut), dtype=float)
+                if not direct.close(row, want, scale=float(np.sum(Xb ** 2)) + 1.0):
+                    ctx.violation(f"{name_b}: in a batch with recurring cuts (order {order}) the row for {cut} is {row.tolist()}, its defining cost difference is {want.tolist()}",
+                                  {"X": Xb.tolist(), "cuts": batch.tolist(), "cut": cut}, {"what": "recurring-batch-row", "scorer": name_b.split("(")[0]})
+                    break
     # ---- the same for the L2 SAVING (Check/FloatSavingCheck.v, Proofs/FloatSaving.v): L2Saving.evaluate bit for bit, and the premise l2_saving_trace_ok of
     # ---- C06_float_l2_saving_program_refines_rounding_model on the same cases
     from skchange.anomaly_scores import L2Saving as _L2S
